@@ -160,6 +160,8 @@ func c13Units(tier string, seed int64) []Unit {
 		}
 	}
 	// the behaviour alphabet through the fuzz body: fail iff the test case is falsified, skip iff invalid
+	units = append(units, c13WidthUnit())
+	units = append(units, c13LongInputUnit())
 	units = append(units, Unit{Name: "C13/behaviours", Run: func(c *Ctx) {
 		behs := append(append([]Beh{}, AllFalsifying...), BPass, BSkip, BSkipNow, BCleanupSkip, BCleanupPass)
 		for _, ctx := range []string{"body", "custom", "action", "invariant"} {
